@@ -41,6 +41,7 @@ type FuncContract struct {
 	PanicsIf []*Clause
 	Assume   []*Clause // assumptions at function entry (listed in evidence)
 	Sites    []*Clause // "at <selector> assert e"
+	Uses     []*Clause // instances of manual axioms assumed at entry
 	Options  map[string]string
 	File     string
 	Line     int
@@ -52,6 +53,7 @@ type LoopContract struct {
 	Ordinal    int
 	Invariants []*Clause
 	Decr       *Clause
+	Uses       []*Clause // instances of manual axioms assumed at every back edge
 	File       string
 	Line       int
 }
@@ -70,6 +72,7 @@ type SpecFunc struct {
 type SpecParam struct{ Name, Type string }
 
 type Lemma struct {
+	Manual bool
 	Name string
 	Expr CExpr
 	Text string
@@ -101,7 +104,7 @@ func NewContractSet() *ContractSet {
 }
 
 var clauseKW = map[string]bool{"requires": true, "ensures": true, "invariant": true, "decreases": true, "assigns": true,
-	"pure": true, "noreturn": true, "panics_if": true, "assume": true, "at": true, "option": true}
+	"pure": true, "noreturn": true, "panics_if": true, "assume": true, "at": true, "option": true, "use": true}
 var topKW = map[string]bool{"func": true, "trusted": true, "interface": true, "loop": true, "spec": true, "pred": true,
 	"ufunc": true, "axiom": true, "lemma": true, "ghost": true, "ginv": true, "ginv_table": true}
 
@@ -231,6 +234,11 @@ func (cs *ContractSet) LoadFile(path, pkgPath string) error {
 				return fmt.Errorf("%s:%d: %v", path, it.line, err)
 			}
 			lm := &Lemma{Name: strings.TrimSpace(name), Expr: e, Text: strings.TrimSpace(body), Pkg: pkgPath, File: path, Line: it.line}
+			if mn, ok := strings.CutPrefix(lm.Name, "manual "); ok {
+				// a manual axiom is never given to the solver as a quantified formula: only its explicitly
+				// requested instances ("use name(args)") are assumed — no matching loops
+				lm.Name, lm.Manual = strings.TrimSpace(mn), true
+			}
 			if kw == "ginv" {
 				cs.GInvs = append(cs.GInvs, lm)
 			} else if kw == "axiom" {
@@ -253,7 +261,7 @@ func (cs *ContractSet) LoadFile(path, pkgPath string) error {
 			}
 			k, v, _ := strings.Cut(rest, " ")
 			curF.Options[k] = strings.TrimSpace(v)
-		case "requires", "ensures", "panics_if", "assume", "assigns", "decreases", "invariant", "at":
+		case "requires", "ensures", "panics_if", "assume", "assigns", "decreases", "invariant", "at", "use":
 			if kw == "at" {
 				// at <site> assert <expr>
 				if curF == nil {
@@ -294,6 +302,10 @@ func (cs *ContractSet) LoadFile(path, pkgPath string) error {
 				curL.Invariants = append(curL.Invariants, c)
 			case curL != nil && kw == "decreases":
 				curL.Decr = c
+			case curL != nil && kw == "use":
+				curL.Uses = append(curL.Uses, c)
+			case curF != nil && kw == "use":
+				curF.Uses = append(curF.Uses, c)
 			case curF != nil && kw == "requires":
 				curF.Requires = append(curF.Requires, c)
 			case curF != nil && kw == "ensures":
